@@ -8,7 +8,7 @@ class LiftError(Exception):
     pass
 
 
-def lift_for_body(lib, modname, funcname, state_vars, item_var=None):
+def lift_for_body(lib, modname, funcname, state_vars, item_var=None, extra_args=()):
     """function `funcname` must have the shape  <prelude>; for <item> in <iterable>: <body>; return ...
     Returns step(state..., item) -> new state tuple, executed in the shadow module's namespace (same AST pass)."""
     path = lib.sources[modname]
@@ -39,7 +39,7 @@ def lift_for_body(lib, modname, funcname, state_vars, item_var=None):
     # prelude runs first (defines tables such as `generator`), then the state variables are overwritten by the arguments
     rebinding = [ast.Assign(targets=[ast.Name(id=v, ctx=ast.Store())], value=ast.Name(id='__arg_' + v, ctx=ast.Load()))
                  for v in state_vars]
-    args = [ast.arg(arg='__arg_' + v) for v in state_vars] + [ast.arg(arg=item)]
+    args = [ast.arg(arg=a) for a in extra_args] + [ast.arg(arg='__arg_' + v) for v in state_vars] + [ast.arg(arg=item)]
     ret = ast.Return(value=ast.Tuple(elts=[ast.Name(id=v, ctx=ast.Load()) for v in state_vars], ctx=ast.Load()))
     fdef = ast.FunctionDef(name='__step__', args=ast.arguments(posonlyargs=[], args=args, kwonlyargs=[], kw_defaults=[], defaults=[]),
                            body=prelude + rebinding + loop.body + [ret], decorator_list=[])
@@ -51,5 +51,14 @@ def lift_for_body(lib, modname, funcname, state_vars, item_var=None):
     tmp = {}
     exec(code, ns, tmp)
     after = fn.body[idx + 1:]
+    # the statements after the loop as a function of the final state (and the extra arguments)
+    fargs = [ast.arg(arg=a) for a in extra_args] + [ast.arg(arg=v) for v in state_vars]
+    fin = ast.FunctionDef(name='__final__', args=ast.arguments(posonlyargs=[], args=fargs, kwonlyargs=[], kw_defaults=[], defaults=[]),
+                          body=list(after) or [ast.Pass()], decorator_list=[])
+    fmod = ast.Module(body=[fin], type_ignores=[])
+    ast.fix_missing_locations(fmod)
+    fcode = loader.transform(ast.unparse(fmod), path + ':<lifted tail %s>' % funcname)
+    exec(fcode, ns, tmp)
+    tmp['__step__'].final = tmp['__final__']
     return tmp['__step__'], dict(item=item, prelude=[ast.unparse(s) for s in prelude], after=[ast.unparse(s) for s in after],
                                  source=src)
